@@ -16,3 +16,9 @@ open SteelVerif.C02
 #print axioms switch_tests_recognised
 #print axioms quick_pairwise
 #print axioms thorough_complete
+#print axioms SteelVerif.C02C.evalC_fuel_monotone
+#print axioms SteelVerif.C02C.dbe_preserves
+#print axioms SteelVerif.C02C.dbe_preserves_in_context
+#print axioms SteelVerif.C02C.dbe_outcomes_agree
+#print axioms SteelVerif.C02C.dbe_then_compile_correct
+#print axioms SteelVerif.C02C.dbe_then_compile_errors
